@@ -839,7 +839,8 @@ def i_ST_D(ins,fmap):
 
 @__npc
 def i_ST_Q(ins,fmap):
-    _r = fmap(ins.operands[0][16:32])
+    # the data register D[a] is the last operand (the first is the address)
+    _r = fmap(ins.operands[-1][16:32])
     store(ins,fmap,2,src=_r)
 
 i_ST_DA = i_ST_D
